@@ -877,25 +877,14 @@ def enum_sma(tier, seed):
             yield dict(a=a, w=w)
 
 
-def f7_affects(a, w):
-    """True when the real moving average reproduces the recorded defect F7 on this input (and is wrong)."""
-    a = np.asarray(a, dtype=np.float64)
-    got = ps.symmetric_moving_average(a, w)
-    return (not np.allclose(got, ref.sma(a, w), rtol=1e-9, atol=1e-12)
-            and np.allclose(got, ref.sma_f7_model(a, w), rtol=1e-9, atol=1e-12))
-
-
 def run_sma(d):
     a = np.array(d["a"], dtype=np.float64)
     w = d["w"]
     got = ps.symmetric_moving_average(a.copy(), w)
     want = ref.sma(a, w)
     n = len(a)
-    tags = []
     ok = got.shape == want.shape and np.allclose(got, want, rtol=1e-9, atol=1e-12)
-    if not ok and got.shape == want.shape and np.allclose(got, ref.sma_f7_model(a, w), rtol=1e-9, atol=1e-12):
-        tags.append("matches-F7-model:sample-0-never-leaves-window-or-count-wrong-for-short-array")
-    check(ok, "sma.value", (d, "got", np.asarray(got).tolist(), "want", want.tolist()), tags)
+    check(ok, "sma.value", (d, "got", np.asarray(got).tolist(), "want", want.tolist()))
     classes = ["wing%d" % w]
     if w >= 1 and n > 2 * w + 1:
         classes.append("full_window_inside")
@@ -904,16 +893,6 @@ def run_sma(d):
     if w >= 1 and n < w:
         classes.append("shorter_than_wing")
     return dict(nt=w >= 1 and n > 2 * w + 1, classes=classes)
-
-
-@signature("F7_moving_average_first_sample_and_short_arrays")
-def _sig_f7(sub, desc, bucket, message):
-    """symmetric_moving_average: `just_out > 0` never removes sample 0 from the window; `count = wing_width`
-    is wrong for arrays shorter than the wing."""
-    if sub not in ("sma", "sma_exh") or bucket != "clause:sma.value" or "[matches-F7-model:" not in message:
-        return False
-    n, w = len(desc["a"]), desc["w"]
-    return w >= 1 and (n > w + 1 or n < w)
 
 
 @st.composite
@@ -937,8 +916,6 @@ def run_gof(d):
     filter_n = fww // dt - 1
     if ref.ssd(w) == 0:
         return dict(nt=False, classes=["degenerate_no_spread"])
-    if d["split_low"] and filter_n > 0 and f7_affects(w, filter_n):
-        raise Excluded("F7")
     got = ps.natural_breaks_gof(w.copy(), dt, normalize=d["normalize"], split_low=d["split_low"], filter_wing_width=fww)
     want = ref.gof(w, d["normalize"], d["split_low"], filter_n)
     check(got.shape == want.shape and np.allclose(got, want, rtol=1e-9, atol=1e-9), "gof.value",
